@@ -453,6 +453,41 @@ func scenarios(w *bufio.Writer) {
 		fmt.Fprintf(w, "NOTE C07 stale pre-block flag: heights %d %d %d %d\n", nodes[0].height, nodes[1].height, nodes[2].height, nodes[3].height)
 		endRun(w, mon, nodes...)
 	}
+	// C08 / C05 (first- and second-round seeded changes C08, C08b, first caught through random synchronous runs only): payloads of
+	// the next height reach a node early - the proposal while it still collects the commits of its height, a response after it
+	// has handed over the block but before the application re-initialises it; both are kept and replayed by the Reset: the node
+	// answers the proposal of the new height without any retransmission
+	{
+		mon := begin(4, -1, 0)
+		n := mkScenNode(mon, 0, mkVals(4), -1, w)
+		n.start(0)
+		req1 := &Payload{dbft.PrepareRequestType, 1, 0, 1, prepReq{5000000, 9, nil}}
+		n.recv(req1)
+		n.recv(&Payload{dbft.PrepareResponseType, 1, 0, 2, prepResp{req1.Hash()}})
+		n.recv(&Payload{dbft.PrepareResponseType, 1, 0, 3, prepResp{req1.Hash()}})
+		req2 := &Payload{dbft.PrepareRequestType, 2, 0, 2, prepReq{7000000, 11, nil}}
+		n.recv(req2) // early: the node is still collecting the commits of height 1
+		blk := &Block{idx: 1, prev: "", ts: 5000000, nonce: 9}
+		n.recv(&Payload{dbft.CommitType, 1, 0, 1, commit{sigv{101, blk.Hash()}}})
+		n.recv(&Payload{dbft.CommitType, 1, 0, 2, commit{sigv{102, blk.Hash()}}})
+		n.recv(&Payload{dbft.PrepareResponseType, 2, 0, 3, prepResp{req2.Hash()}}) // early: decided, not yet re-initialised
+		n.out = nil
+		if n.height == 1 {
+			n.op(fmt.Sprintf("R %d", n.lastTS), func() { n.d.Reset(n.lastTS) })
+		}
+		answered := false
+		for _, p := range n.out {
+			if p.T == dbft.PrepareResponseType && p.Hgt == 2 {
+				answered = true
+			}
+		}
+		mon.tick("C08")
+		if n.height != 1 || !answered || n.d.PreparationPayloads[3] == nil {
+			mon.nhit(n, "C08", "early-payload-lost", fmt.Sprintf("node 0 (ledger height %d) was given the proposal of height 2 and a response to it before its re-initialisation: answered=%v, response of validator 3 kept=%v", n.height, answered, n.d.PreparationPayloads[3] != nil))
+			mon.nhit(n, "C05", "early-payload-lost", "payloads of the next height received before the re-initialisation were not replayed by it")
+		}
+		endRun(w, mon, n)
+	}
 }
 
 // pump delivers every broadcast payload to every other node in FIFO order until quiet (or max deliveries).
